@@ -8,3 +8,4 @@ import QV.Gen.Tables
 import QV.Drive.BExpJson
 import QV.Drive.CircJson
 import QV.Props.C09
+import QV.Props.C15
